@@ -62,6 +62,9 @@ def gen_scenario(rng: random.Random) -> Dict[str, Any]:
             sc["delta"] = rng.choice([-1.0, 0.0, 1.0, 174.0, 175.0, 176.0, 348.0, 349.0, 350.0, 351.0, 352.0, 399.0])
         sc["chain"] = rng.choice([0, 0, 1, 2, 4])
         sc["prepopulated"] = rng.random() < 0.2    # conflict already cached long before registration
+        # the cache still holds an expired copy of the conflicting pointer that the 10 s purge has not removed yet (it is no
+        # conflict by itself); the conflicting record heard while probing then refreshes that entry instead of creating one
+        sc["stale_copy"] = (not sc["prepopulated"]) and rng.random() < 0.25
     elif variant == "peer":
         sc["delay"] = rng.choice([0.0, 1.0, 30.0, 60.0, 85.0, 120.0, 150.0])   # one-way; a probe reply is back within 300 ms < 350 ms
         sc["chain"] = rng.choice([0, 0, 1])
@@ -88,6 +91,7 @@ def run_scenario(res: Result, seed: int) -> None:
             host = sim.net.add_host("H", "10.0.0.1", "fe80::1" if sc["layout"] == "split" else None, layout=sc["layout"])
             azc = await sim.start_host(host)
             zc = azc.zeroconf
+            t_engine = sim.now_ms()
             inst = s.name[: -len(s.type) - 1]
             taken = [s.name] + ["%s-%d.%s" % (inst, k, s.type) for k in range(2, 2 + sc["chain"])]
             peer_azc = None
@@ -102,6 +106,12 @@ def run_scenario(res: Result, seed: int) -> None:
                 await sim.sleep_ms(2000)
                 zc.cache.cache.clear()
                 zc.cache.service_cache.clear()
+            if sc["variant"] == "inject" and sc.get("stale_copy"):
+                # the purge runs every 10 s from the start of the engine; a pointer (TTL floor 1125 s = 112.5 periods) heard
+                # half a second after a purge expires 5.5 s after one and is then left in the cache for 4.5 s
+                await sim.sleep_until_ms(t_engine + 10000.0 + 500.0)
+                sim.net.inject_now(host, R.build_response([(("PTR", s.type, (s.name,)), 1, False)], id_=6), ("10.0.0.9", 5353))
+                await sim.sleep_ms(1125000.0 + 1.0)
             if sc["variant"] == "inject":
                 for nm in taken[1:]:
                     sim.net.inject_now(host, R.build_response([(("PTR", s.type, (nm,)), 4500, False)], id_=7), ("10.0.0.9", 5353))
@@ -115,6 +125,9 @@ def run_scenario(res: Result, seed: int) -> None:
                 info = ServiceInfo(s.type, s.name, s.port, s.weight, s.priority, s.text, None, host_ttl=s.host_ttl, other_ttl=s.other_ttl,
                                    addresses=list(s.addrs4) + list(s.addrs6))
             out["info"] = info
+            if sc.get("stale_copy"):
+                held = [r for r in zc.cache.get_all_by_details(s.type, 12, 1) if r.alias.lower() == s.name.lower()]
+                res.obs("stale_copy_held_expired_at_start" if (held and held[0].is_expired(sim.now_ms())) else "stale_copy_not_as_planned")
             P0 = sim.now_ms()
             out["P0"] = P0
             out["mark"] = len(sim.net.trace)
